@@ -565,7 +565,9 @@ func genCase(t *rapid.T) Case {
 	flags := sgen.Flags(t, pool)
 	var p sgen.Program
 	var lc *sgen.LockCtx
-	switch rapid.IntRange(0, 11).Draw(t, "level") {
+	switch rapid.IntRange(0, 12).Draw(t, "level") {
+	case 12:
+		p = sgen.DeepStack(t, flags)
 	case 10:
 		p = sgen.P2SHLookalike(t, flags)
 	case 11:
